@@ -411,3 +411,20 @@ def through_disk(ctx, obj, cls, binary, suffix, read_kwargs=None, as_pathlib=Fal
         except OSError:
             pass
     return back, raw
+
+
+def drop_defaults(ctx, kwargs, defaults, every=2):
+    """Keyword arguments whose value equals the documented default are left out in every `every`-th case, so that the
+    default values of the signature are exercised as well (a changed default is a behaviour change for every caller
+    that relies on it)."""
+    if (getattr(ctx, "index", 0) or 0) % every != 0:
+        return kwargs
+    out = {}
+    for k, v in kwargs.items():
+        if k in defaults:
+            d = defaults[k]
+            same = (v is d) or (type(v) is type(d) and v == d) or (isinstance(d, tuple) and isinstance(v, (list, tuple)) and len(v) == 0 and len(d) == 0)
+            if same:
+                continue
+        out[k] = v
+    return out
